@@ -1,4 +1,4 @@
-import os, sys
+import os, sys, random
 sys.path.insert(0, os.path.join(os.path.dirname(os.path.abspath(__file__)), '..', 'lib'))
 sys.path.insert(0, os.path.dirname(os.path.abspath(__file__)))
 import vlib, flow, gen_trans
@@ -10,8 +10,8 @@ from pt_common import LO, P, RW, US, HUGE, COW, NX, M64, M36
 
 class C06(flow.Spec):
     prop = 'C06'
-    props_files = ['theories/Props/C06.v', 'theories/Props/C06_examples.v']
-    model_targets = ['theories/Vmm/Pt.vo']
+    props_files = ['theories/Props/C06.v', 'theories/Props/C06_examples.v', 'theories/Props/C06_mem.v', 'theories/Props/C06_mem_examples.v']
+    model_targets = ['theories/Vmm/Pt.vo', 'theories/Kernel/MemUtil.vo']
     pkg = 'mm/vmm'
     harness = pc.HARNESS + [os.path.join(pc.H, 'zz_verif_c06_test.go')]
     test = 'TestVerifC06$'
@@ -220,6 +220,90 @@ class C06(flow.Spec):
         probes = pc.neighbours(win + outside, rng, limit=24)
         note = 'zf' if reserve_first else 'nozf'
         return (pc.build(cnt, 0, oracle, probes, ops), note)
+
+    # ---- kernel.Memset / kernel.Memcopy (Kernel/MemUtil.v, Props/C06_mem.v): second model + harness in package kernel ----
+    def mem_cases(self, rng, tier):
+        n = {'quick': 400, 'thorough': 6000, 'search': 1500}[tier]
+        out = []
+        sizes = [0, 1, 2, 3, 4, 5, 7, 8, 9, 15, 16, 17, 31, 33, 63, 64, 65, 100, 127, 128, 129, 255, 257, 1000, 1023, 1025,
+                 4095, 4096, 4097, 5000, 8191, 8192, 8193, 12288]
+        for it in range(n):
+            r = rng.random()
+            if r < 0.25:
+                # what the kernel does: one page, any alignment of the buffer, any fill value
+                base = rng.choice([0, 0, 1, 3, 8, 64, rng.randrange(0, 5000)])
+                out.append([0, base + 4096 + rng.choice([0, 1, 64, rng.randrange(0, 5000)]), base, rng.choice([0, 0, 0, 0xff, rng.randrange(256)]), 4096])
+            elif r < 0.45:
+                # one page copied between disjoint regions (the copy-on-write handler), either order, touching or apart
+                gap = rng.choice([0, 0, 1, 64, rng.randrange(0, 5000)])
+                lo = rng.choice([0, 0, 1, 8, rng.randrange(0, 5000)])
+                hi = lo + 4096 + gap
+                src, dst = (lo, hi) if rng.random() < 0.5 else (hi, lo)
+                out.append([1, hi + 4096 + rng.choice([0, 1, rng.randrange(0, 200)]), src, dst, 4096])
+            elif r < 0.70:
+                size = rng.choice(sizes) if rng.random() < 0.6 else rng.randrange(0, 20000)
+                if rng.random() < 0.05:
+                    size = rng.choice([65535, 65536, 65537, 100000])
+                base = rng.choice([0, 0, 1, 3, 8, rng.randrange(0, 70)])
+                tail = rng.choice([0, 0, 1, 5, rng.randrange(0, 70)])
+                out.append([0, base + size + tail, base, rng.choice([0, 0, 0xff, rng.randrange(256)]), size])
+            else:
+                size = rng.choice(sizes) if rng.random() < 0.5 else rng.randrange(0, 9000)
+                m = rng.random()
+                src = rng.randrange(0, 50)
+                if m < 0.3:
+                    dst = src + size + rng.randrange(0, 50)           # disjoint, destination above
+                elif m < 0.5:
+                    dst, src = src, src + size + rng.randrange(0, 50)  # disjoint, destination below
+                elif m < 0.7:
+                    dst = src + rng.randrange(0, size + 1)            # overlapping, destination above
+                elif m < 0.9:
+                    dst, src = src, src + rng.randrange(0, size + 1)   # overlapping, destination below
+                else:
+                    dst = src
+                total = max(src, dst) + size + rng.randrange(0, 40)
+                out.append([1, total, src, dst, size])
+        return out
+
+    def extra_checks(self, ctx):
+        res = []
+        wd = ctx['wd']
+        rng = random.Random(ctx['seed'] * 11 + 5)
+        cases = self.mem_cases(rng, ctx['tier'])
+        cpath = os.path.join(wd, 'cases_mem.txt')
+        gpath = os.path.join(wd, 'go_mem.out')
+        mpath = os.path.join(wd, 'model_mem.out')
+        vlib.write_cases(cpath, cases)
+        hk = os.path.join(vlib.ROOT, 'harness/kernel/root/zz_verif_c06mem_test.go')
+        rc, out, _ = vlib.run_go(wd, 'kernel', '', [hk], 'TestVerifC06Mem$', cases_path=cpath, out_path=gpath, timeout=600)
+        gobs, mons, info = vlib.parse_out(gpath)
+        names = {0: 'Memset(base+%d, value %#x, size %d) on a %d-byte buffer', 1: 'Memcopy(src base+%d, dst base+%d, size %d) inside a %d-byte buffer'}
+
+        def describe(c):
+            return names[c[0]] % ((c[2], c[3], c[4], c[1]) if c[0] == 0 else (c[2], c[3], c[4], c[1]))
+        if rc != 0 and not mons:
+            res.append(('c06:mem-harness-died', 'Memset/Memcopy harness did not complete: ' + out[-800:], None))
+        seen = set()
+        for (i, sig, msg) in sorted(mons, key=lambda m: cases[m[0]][1] if m[0] < len(cases) else 0):
+            if sig in seen:
+                continue
+            seen.add(sig)
+            c = cases[i] if i < len(cases) else None
+            res.append((sig, msg, dict(kind='mem-call', call=describe(c) if c else None, case=['%x' % v for v in c] if c else None,
+                                       replay='VERIF_CASES=<file with "0 <case>"> go test -tags verif -run TestVerifC06Mem . in /repo/kernel (with the overlay of checks/C06.py)')))
+        try:
+            vlib.run_model('C06mem', cpath, mpath)
+            mobs, _, _ = vlib.parse_out(mpath)
+            bad = [i for i in range(len(cases)) if gobs.get(i) != mobs.get(i)]
+            if bad and not mons:
+                i = min(bad, key=lambda k: cases[k][1])
+                res.append(('c06:mem-model-mismatch', 'Kernel/MemUtil.v and mem_util.go differ on %d of %d calls, smallest: %s' % (len(bad), len(cases), describe(cases[i])),
+                            dict(kind='mem-call', call=describe(cases[i]), case=['%x' % v for v in cases[i]], no_failing_input=True, correspondence='Kernel/MemUtil.v run_case vs kernel.Memset/Memcopy (TestVerifC06Mem)')))
+        except Exception as ex:
+            res.append(('c06:mem-model-failed', str(ex)[-600:], None))
+        self.mem_info = dict(cases=len(cases), memset=sum(1 for c in cases if c[0] == 0), memcopy=sum(1 for c in cases if c[0] == 1),
+                             non_power_of_two_sizes=sum(1 for c in cases if c[4] & (c[4] - 1)), overlapping=sum(1 for c in cases if c[0] == 1 and abs(c[2] - c[3]) < c[4]))
+        return res
 
     def explain(self, nums):
         return pc.explain(nums)
